@@ -81,6 +81,7 @@ type Lemma struct {
 	From      *Clause // base value
 	Uses      []string
 	Triggers  []Clause // trigger terms for the lemma-as-axiom
+	Props     []string
 	File      string
 	Line      int
 }
@@ -473,6 +474,8 @@ func (c *Contracts) parseLines(lines []srcLine, scope string) error {
 		case "props":
 			if curF != nil {
 				curF.Props = append(curF.Props, strings.Fields(strings.ReplaceAll(s.rest, ",", " "))...)
+			} else if curL != nil {
+				curL.Props = append(curL.Props, strings.Fields(strings.ReplaceAll(s.rest, ",", " "))...)
 			}
 		case "induction":
 			if curL == nil {
